@@ -169,6 +169,15 @@ def run_case(ctx, case, n):
     fa, bam, vcf, ped = sc.write(d)
     out = os.path.join(d, "out.vcf")
     files = {k: os.path.join(d, k + ".list") for k in ("read", "gt", "rec")}
+    if case.get("stale_lists", (case.get("gen_seed", 0) % 2 == 0)):
+        # the list paths already exist from an earlier run (pipeline re-run into the same paths): the lists must
+        # describe THIS run only — leftovers would be rows that are no entry of any processed chromosome/family
+        for k, pth in files.items():
+            if not o[{"read": "read_list", "gt": "gt_list", "rec": "rec_list"}[k]]:
+                continue        # only paths handed to whatshap; the others must simply stay absent
+            with open(pth, "w") as f:
+                f.write("#stale header from an earlier run\nstaleSample\tchrOld\t123\tA\tC\t0/0\t0/1\tleft over\n")
+        ctx.dist("list_paths", "pre-existing")
     rc, so, se, trace = R.run_whatshap(ctx, cli_args(case, fa, bam, vcf, ped, out, files), trace=os.path.join(d, "trace.jsonl"))
     ctx.evaluated()
     ctx.dist("n_contigs", len(sc.contigs)); ctx.dist("families", f"{case['params']['n_trios']}t+{case['params']['n_singles']}s")
